@@ -257,8 +257,8 @@ class Lookup(Op):
         if op["method"] not in METHODS[k]:
             return False
         q = op.get("q")
-        if isinstance(q, list) and q[2] < 1:
-            return False
+        if isinstance(q, list) and q[2] < 1 and (q[2] == 0 or w.cfg.get("judge_scan", True)):
+            return False  # C05/C06/C13 speak about positive steps; C12 ("any lookup") also compares descending ranges across schedules
         if "worlds" in op and w.cfg.get("world_index") not in op["worlds"]:
             return False
         return True
